@@ -27,8 +27,8 @@ sys.path.insert(0, HERE)
 sys.path.insert(0, REPO)
 
 CONTRACT_MODULES = ['contracts.validators', 'contracts.ir_types', 'contracts.runtime_base', 'contracts.serializers',
-                    'contracts.cli',
-                    'contracts.canary', 'lemmas.c10']
+                    'contracts.cli', 'contracts.generator', 'contracts.entrypoints',
+                    'contracts.canary', 'lemmas.c10', 'lemmas.c04']
 
 
 def load_contracts():
@@ -224,6 +224,7 @@ def main():
                       'paths': r['paths'], 'obligations': len(r['obligations']),
                       'discharged': sum(1 for o in r['obligations'] if o['status'] == 'discharged'),
                       'seconds': r.get('seconds'), 'solver_seconds': r.get('solver_seconds'),
+                      'max_obligation_effort': max([o.get('effort') or 0 for o in r['obligations']] or [0]),
                       'inlined': r.get('inlined'), 'assumptions': r.get('assumptions'), 'reused_from_cache': bool(r.get('cached')),
                       'unsupported': r.get('unsupported'), 'bounded_only': bool(r.get('bounded_only'))})
         solver_s += r.get('solver_seconds') or 0.0
@@ -236,7 +237,9 @@ def main():
         # bounded oracle comparison (never counted as proved): every function, every run
         n_here = n_search * 4 if r.get('bounded_only') else n_search
         sr = native({'mode': 'search', 'contract_modules': CONTRACT_MODULES, 'target': t,
-                     'n': n_here, 'seed': seed})
+                     'n': n_here, 'seed': seed,
+                     'known_cases': [k['case'] for k in known if k.get('status') == 'known' and k['target'] == t
+                                     and k['property'] == prop and k.get('case')]})
         if r.get('bounded_only'):
             bounded_only_funcs.append(t)
             src = sr.get('source') or {}
@@ -246,6 +249,7 @@ def main():
         bounded_checks.append({'name': ('BOUNDED STAND-IN (not proved): ' if r.get('bounded_only') else '') +
                                'native oracle comparison ' + t, 'bound': '%d sampled inputs' % n_here,
                                'cases': sr.get('accepted'), 'distinct': sr.get('distinct'),
+                               'inputs_under_known_findings': sr.get('known_hits', 0),
                                'passed': sr.get('mismatch') is None and 'native_error' not in sr})
         if 'native_error' in sr:
             fault.append('native search failed for %s: %s' % (t, sr['native_error'][-400:]))
@@ -290,6 +294,11 @@ def main():
     proof_missed = []
     if pending_hits and not violations:
         for t, hit in pending_hits:
+            if by_target[t].get('bounded_only'):
+                violations.append(make_violation(prop, t, 'bounded stand-in: native comparison of %s with its '
+                                                 'reference (function not under proof)' % t, None, hit,
+                                                 'bounded-search', replay_dir))
+                continue
             proof_missed.append(t)
             violations.append(make_violation(prop, t, 'native oracle comparison of %s (all its obligations '
                                              'discharged: proof missed this input)' % t, None, hit,
